@@ -31,6 +31,7 @@ J2TSeq(s) == [i \in 1..Len(s) |-> J2T(s[i])]
 \* ---- value constructors -------------------------------------------------------------
 VAtom(c)     == Mk("atom", c, <<>>, {})
 VStr(s)      == Mk("str", s, <<>>, {})
+VStrSub(s, c) == Mk("str", s, <<Mk("atom", c, <<>>, {})>>, {})    \* instance of a subclass c of str
 VClassObj(c) == Mk("classobj", c, <<>>, {})
 VFunc(f)     == Mk("func", f, <<>>, {})
 VGen         == Mk("genobj", "", <<>>, {})
@@ -78,7 +79,7 @@ MroOf(c) == IF c \in DOMAIN Mro THEN Mro[c] ELSE <<c, "object">>
 IsA(c, base) == \E i \in 1..Len(MroOf(c)) : MroOf(c)[i] = base
 
 ClassOf(v) == CASE v.k = "atom"     -> v.n
-                [] v.k = "str"      -> "str"
+                [] v.k = "str"      -> IF Len(v.a) > 0 THEN v.a[1].n ELSE "str"    \* a = <<atom(class)>> for a str subclass
                 [] v.k = "classobj" -> "type"
                 [] v.k = "func"     -> v.n
                 [] v.k = "genobj"   -> "generator"
